@@ -334,11 +334,16 @@ class StringDataEncoding(DataEncoding):
                                  "This is an error since strings must be an integer numbers of bytes.")
             parsed_string = raw_string_buffer.read_as_bytes(strlen_bits).decode(self.encoding)
         elif self.termination_character is not None:
-            try:
-                tchar_byte_index = raw_string_buffer.index(self.termination_character)
-            except ValueError as exc:
+            # Search on character boundaries only. In a multi-byte encoding the bytes of the termination character
+            # can also occur across two adjacent characters, which is not a termination character.
+            char_width = 4 if "32" in self.encoding else 2 if "16" in self.encoding else 1
+            tchar_byte_index = next(
+                (i for i in range(0, len(raw_string_buffer), char_width)
+                 if raw_string_buffer[i:i + len(self.termination_character)] == self.termination_character),
+                None)
+            if tchar_byte_index is None:
                 raise ValueError(f"Reached the end of the raw string buffer {raw_string_buffer} without finding the "
-                                 f"termination character {self.termination_character}") from exc
+                                 f"termination character {self.termination_character}")
             parsed_string = raw_string_buffer.read_as_bytes(tchar_byte_index * 8).decode(self.encoding)
         else:
             # Indicates there is no further parsing. The raw string value is the whole string value.
